@@ -21,5 +21,4 @@ for c in $CHECKS; do
   V=$(grep -c "^VIOLATION" $OUT/check_$c.log); NF=$(grep -c "no-failing-input-found" $OUT/check_$c.log)
   echo "check $c: violations=$V no_failing_input=$NF" | tee -a $OUT/checks.log
 done
-rm -f /verif/replays/*  # replays of the patched tree are not kept
 git -C /repo worktree remove --force $WT
